@@ -22,6 +22,8 @@ Record field := mk_field {
   f_name : string;            (* Go field name *)
   f_col0 : string;            (* column the naming strategy / column tag gives *)
   f_coltag : bool;            (* an explicit `column:` tag is present *)
+  f_dbdef : bool;             (* `default:(expr)`: a database-side default gorm does not parse
+                                 (HasDefaultValue, DefaultValueInterface = nil) *)
   f_dash : option dash;
   f_ro : option bool;         (* Some true = "->", Some false = "->:false" *)
   f_rw : option wperm;
@@ -206,14 +208,24 @@ Definition assign_map_old (s : schema) (sm : sel_map * bool) (skip_hooks : bool)
 Definition is_auto (f : field) : bool := match f_auto f with ANone => false | _ => true end.
 
 (* INSERT column list for struct / slice payloads; [any_key] = some row carries a non-zero key *)
-Definition create_fields (s : schema) (sm : sel_map * bool) (any_key : bool) : list field :=
+(* fields with a database-side default value (Schema.FieldsWithDefaultDBValue): the key and `default:(expr)` *)
+Definition db_default (f : field) : bool := f_pk f || f_dbdef f.
+Definition any_nonzero (ps : list payload) (f : field) : bool := existsb (fun p => negb (p_zero p f)) ps.
+(* INSERT column list for struct / slice payloads [ps]: the ordinary columns, then every field with a
+   database-side default that is allowed and non-zero in some element *)
+Definition create_fields (s : schema) (sm : sel_map * bool) (ps : list payload) : list field :=
   filter (fun f =>
-    if f_pk f then false
+    if db_default f then false
     else match sel_get (fst sm) (f_db f) with
          | Some v => v
          | None => negb (snd sm) || is_auto f
          end) (col_fields s)
-  ++ filter (fun f => f_pk f && allowed sm (f_db f) && any_key) (col_fields s).
+  ++ filter (fun f => db_default f && allowed sm (f_db f) && any_nonzero ps f) (col_fields s).
+
+(* an element without a value for an inserted `default:(expr)` column gets the dialect's placeholder:
+   SQLite has none ("DEFAULT" inside VALUES is a syntax error) *)
+Definition default_placeholder_error (fs : list field) (ps : list payload) : bool :=
+  existsb (fun f => f_dbdef f && negb (f_pk f) && existsb (fun p => p_zero p f) ps) fs.
 
 (* value of one inserted column for one row; [forced_now] = fields Save's failed UPDATE already set *)
 Definition create_src (forced_now : list string) (p : payload) (f : field) : src :=
@@ -229,7 +241,7 @@ Definition create_map_cols (s : schema) (sm : sel_map * bool) (p : payload) : li
 Definition update_all_set (s : schema) (sm2 : sel_map * bool) (inserted : list field) (forced_now : list string)
            (p : payload) : list assignment :=
   flat_map (fun f =>
-    if allowed sm2 (f_db f) && negb (f_pk f) && negb (match f_auto f with ACreate => true | _ => false end)
+    if allowed sm2 (f_db f) && negb (db_default f) && negb (match f_auto f with ACreate => true | _ => false end)
     then [(f_db f, match f_auto f with AUpdate => KNow | _ => create_src forced_now p f end)]
     else []) inserted.
 
@@ -254,9 +266,19 @@ Definition mem_z (x : Z) (l : list Z) : bool := existsb (Z.eqb x) l.
    the model value's key = one entry per primary-key member, 0 = that member is zero (no condition).
    ConvertToAssignments adds an Eq for EVERY non-zero primary field of the model value. *)
 Definition srow := (Z * list Z)%type.
-Definition key_match (mk ks : list Z) : bool :=
+Definition struct_match (mk ks : list Z) : bool :=
   forallb (fun pr => (fst pr =? 0) || (snd pr =? fst pr)) (combine mk ks).
-Definition targeted (stored : list srow) (model_key : list Z) (where_ids : option (list Z)) : list Z :=
+(* the model value: one struct (its key members) or a slice of single-key structs (their keys, 0 = none).
+   Slice: the scan over the elements leaves isZero describing the LAST element; only if that one is
+   keyed, WHERE pk IN (the non-zero keys) is added. *)
+Inductive mkey := MStruct (members : list Z) | MSlice (keys : list Z).
+Definition key_match (mk : mkey) (ks : list Z) : bool :=
+  match mk with
+  | MStruct m => struct_match m ks
+  | MSlice l => (last l 0 =? 0)
+                || existsb (fun k => negb (k =? 0) && (hd 0 ks =? k)) l
+  end.
+Definition targeted (stored : list srow) (model_key : mkey) (where_ids : option (list Z)) : list Z :=
   map fst (filter (fun r => key_match model_key (snd r)
                             && match where_ids with None => true | Some l => mem_z (fst r) l end) stored).
 
@@ -284,12 +306,11 @@ Fixpoint new_rows (s : schema) (forced : list string) (fs : list field) (ps : li
 Definition sort_fields (s : schema) (fs : list field) : list field :=
   filter (fun f => existsb (fun g => String.eqb (f_db g) (f_db f)) fs) (col_fields s).
 
-Definition any_key (ps : list payload) : bool := existsb (fun p => negb (fst p =? 0)) ps.
 
 Definition upsert (s : schema) (table : string) (selects omits : list sitem) (stored : list Z)
            (forced : list string) (o : op) (p : payload) : outcome :=
   let sm := select_and_omit s table selects omits true false in
-  let fs := create_fields s sm (any_key [p]) in
+  let fs := create_fields s sm [p] in
   let key_in := existsb f_pk fs in
   match fs with
   | [] => mk_outcome [] true   (* INSERT ... DEFAULT VALUES ON CONFLICT ... : SQLite rejects the statement *)
@@ -310,14 +331,16 @@ Definition upsert (s : schema) (table : string) (selects omits : list sitem) (st
   end.
 
 Definition run_op (s : schema) (table : string) (o : op) (selects omits : list sitem)
-           (ps : list payload) (stored : list srow) (model_key : list Z) (where_ids : option (list Z)) : outcome :=
+           (ps : list payload) (stored : list srow) (model_key : mkey) (where_ids : option (list Z)) : outcome :=
   let ids := map fst stored in       (* single-key types: row identity = stored key *)
   let p := match ps with p :: _ => p | [] => (0, []) end in
   let rows := targeted stored model_key where_ids in
   match o with
   | OCreate | OCreateBatch =>
       let sm := select_and_omit s table selects omits true false in
-      mk_outcome (new_rows s [] (sort_fields s (create_fields s sm (any_key ps))) ps 1001) false
+      let fs := create_fields s sm ps in
+      if default_placeholder_error fs ps then mk_outcome [] true
+      else mk_outcome (new_rows s [] (sort_fields s fs) ps 1001) false
   | OCreateMap =>
       let sm := select_and_omit s table selects omits true false in
       let cols := create_map_cols s sm p in
@@ -342,7 +365,7 @@ Definition run_op (s : schema) (table : string) (o : op) (selects omits : list s
   | OSave =>
       if fst p =? 0 then
         let sm := select_and_omit s table selects omits true false in
-        mk_outcome (new_rows s [] (sort_fields s (create_fields s sm false)) [p] 1001) false
+        mk_outcome (new_rows s [] (sort_fields s (create_fields s sm [p])) [p] 1001) false
       else
         let selects' := match selects with [] => [SStar] | _ => selects end in
         let sm := select_and_omit s table selects' omits false true in
